@@ -98,8 +98,19 @@ def scenario(rm, rng, nodes, ops, rf, diverse, replicas, hash_type, table=None, 
     d = nodes[idx - 1]
     if op == 'add':
       router.addDestination(d)
+      if rng.random() < 0.3:
+        # the same (server, instance) announced again, on another port: refused ("already configured"), nothing changes
+        try:
+          router.addDestination((d[0], d[1] + 1, d[2]))
+        except Exception:
+          pass
     else:
       router.removeDestination(d)
+      if rng.random() < 0.3:
+        try:
+          router.removeDestination(d)       # not configured any more: refused, nothing changes
+        except Exception:
+          pass
     steps.append(observe(router, ring, nidx, maxp, flags, sweep_all))
   live = [i + 1 for i, n in enumerate(nodes) if router.hasDestination(n)]
   # a freshly started relay with the same live destinations (configured order)
